@@ -88,9 +88,7 @@ func (bt *BaseToken) loadConfigUnlessLoaded() error {
 	if err != nil {
 		return err
 	}
-	if bt.config == nil {
-		bt.config = &proto.Token{}
-	}
+	bt.config = &proto.Token{}
 
 	if len(data) == 0 {
 		return nil
